@@ -1,6 +1,7 @@
 import LassoProofs.Lemmas.Conc
 import LassoProofs.Lemmas.SerdeT
 import LassoModel.Extracted
+import LassoProofs.Lemmas.ConcEffects
 /-
   C03 — concurrent interning is atomic: one key per string under every schedule.
 
@@ -199,5 +200,16 @@ two interning entry points. -/
 theorem key_allocation_atomic :
     ((Extracted.atomicOps.filter fun op => op.role == .keyCounter).map fun op => op.kind) = [.fetchAdd, .fetchAdd] := by
   decide
+
+/-- The machine's transitions are the source's operations in the source's order: the program counters
+a thread passes through while interning a new string, mapped to the operations each step performs, give
+exactly the effect sequence regenerated from `try_get_or_intern` resp. `try_get_or_intern_static`
+(fast lookup; lock and second lookup; store; key fetch and check; key->string insert; string->key
+insert).  Reordering the two inserts, dropping the second lookup, fetching the key before the store or
+touching the maps anywhere else changes the extracted sequence and breaks this theorem. -/
+theorem steps_are_source_operations (sh : Bytes → Nat) (N cap max : Nat) (x : Bytes) (hN : 0 < N) (hx : 0 < x.length) (hc : x.length ≤ cap) :
+    ((pcsAlong sh N (init cap max [[.intern x]]) 0 6).flatMap effectsOfStep) = Extracted.internEffects ∧
+    ((pcsAlong sh N (init cap max [[.internStatic x]]) 0 5).flatMap effectsOfStep) = Extracted.internStaticEffects :=
+  ⟨solo_intern_effects sh N cap max x hN hx hc, solo_intern_static_effects sh N cap max x hN⟩
 
 end Lasso.C03
